@@ -2,7 +2,8 @@
 
 package scalar
 
-// Verification-only accessors for C20: the unpacked-scalar constants of the active backend.
+// VerifC20Reg: accessors looked up by name at run time; one small file per constant registers itself here.
+var VerifC20Reg = map[string]interface{}{}
 
 func verifWiden(s *unpackedScalar) []uint64 {
 	out := make([]uint64, len(s))
@@ -11,15 +12,3 @@ func verifWiden(s *unpackedScalar) []uint64 {
 	}
 	return out
 }
-
-// VerifC20ScalarConstants returns (L, R, RR) limbs, LFACTOR, and the limb width in bits (52 or 29).
-func VerifC20ScalarConstants() (l, r, rr []uint64, lfactor uint64, limbBits uint) {
-	bits := uint(52)
-	if len(constL) == 9 {
-		bits = 29
-	}
-	return verifWiden(&constL), verifWiden(&constR), verifWiden(&constRR), uint64(constLFACTOR), bits
-}
-
-// VerifC20Order returns the `order` words used by ScMinimalVartime.
-func VerifC20Order() [4]uint64 { return order }
